@@ -24,7 +24,7 @@ func (ctx *RunCtx) addTVViolation(p *tv.Package, c *tv.Case, label, detail strin
 		return
 	}
 	ctx.nViol++
-	dir := filepath.Join(VerifRoot, "replays", ctx.Check.ID, strconv.Itoa(ctx.nViol))
+	dir := filepath.Join(replayRoot(), ctx.Check.ID, strconv.Itoa(ctx.nViol))
 	os.MkdirAll(dir, 0o755)
 	for name, src := range p.Files {
 		os.WriteFile(filepath.Join(dir, name), []byte(src), 0o644)
